@@ -46,6 +46,30 @@ CLAIMS = {
   text="Deductive proof with fault injection in the model: every mutating primitive (mkdir, rmdir, remove, rename, replace, makedirs, cache write) may raise an OSError subclass without effect on every call; under that model _make_dirs leaves no directory without an rmdir attempt, _build_file/_rebuild_file/_subbuild/_apply_cached_suboperations keep the record invariants on every exceptional exit, _build turns any such Exception into close + roll back + re-raise, _roll_back itself never raises.",
   note="FileBackups and BuildDirs are trusted contracts (bounded stand-ins); release of reservations on the error paths of _build_file is not expressed (BuildDirs trusted); failures during commit are outside the statement.",
   ref="DESIGN.md 5 C14"),
+ 'C04': dict(
+  text="Deductive proof that the executor's queries equal the statement's virtual view, written from the statement (VFile: not the cache file; a path passed to build_file in this build is a file iff its function has returned and the file exists; otherwise iff it is not an old output and is a regular file; VDir: a real directory not virtually gone; the replay overlay takes precedence): _is_file_no_read, is_file, is_dir, exists, _assert_exists, _assert_is_dir, read (incl. which OSError subclass), get_size, list_dir (every listed name exists in the view) and _list_dir_superset are verified against it on all paths; _rebuild_file proves that the target is claimed while its function runs and registered (visible, or failed and invisible) on every exit; query methods pass no overlay.",
+  note="'Virtually gone' is the answer of BuildDirs' directory scan (is_removed_norm_case), a trusted contract; the reservation machine has the bounded stand-in build_dirs_machine; walk/_append_walk are not under contract (not decided); completeness of list_dir (every existing child is listed) is proved only for _list_dir_superset; the cache-only-directory latitude is built into the view.",
+  ref="DESIGN.md 5 C04"),
+ 'C05': dict(
+  text="Deductive proof of the effectiveness mechanisms: replay queries never need the real file system for paths that exist only in the overlay (_list_dir_superset; get_size is a listed known finding); listings are sorted (deterministic); reuse does not call the function and records the current comparison result; the replay functions leave the file system untouched and keep the CreatedFiles invariant (overlay evolves as recorded: counts never drop); lookups hit only the old record of the same key.",
+  note="The 'only if' direction (a record is rejected only for one of the listed reasons) and the read-footprint argument are not decided; composition over whole builds is informal (see C01).",
+  ref="DESIGN.md 5 C05"),
+ 'C13': dict(
+  text="Deductive proof of the comparison primitives: _file_metadata returns exactly {size: st_size, timeNs: st_mtime_ns} of the file (IsADirectoryError / FileNotFoundError exactly for directories / missing paths); file_comparison_result dispatches METADATA/HASH and rejects other names with ValueError; _file_hash either hashes the file now and memoises (hash, built-flag) or serves a memo entry whose built-flag equals the current one and whose path is still a regular file; read returns that result only for virtual files; _is_build_file_cached is JsonUtil.is_equal(recorded, current-or-None) and implies the output exists; _rebuild_file records the result taken after the function returned; reuse records the current result.",
+  note="SHA-256 is an uninterpreted digest (content -> hash injectivity assumed); the memo invariant 'entry equals the hash of the current content' needs the history of writes and is not decided (design candidate M7).",
+  ref="DESIGN.md 5 C13"),
+ 'C16': dict(
+  text="Proof + bounded: Cache.read_immutable is verified to have no effect on any path and to build a Cache whose maps are what _operations_from_json registered; Cache.write is verified to perform exactly one effect (opening the file it was given for writing) and _build proves it is called only after the root function returned, after the created directories were recorded and with the previous cache file moved aside; the record serialisation round trip (write o read_immutable over record forests, versions incl. falsy values, unicode names, big ints) is a bounded stand-in (cache_forest), not a proof.",
+  note="_operation_to_json/_operations_from_json/json/gzip are the trusted file layer; 'if writing fails and there was no cache file, none is left' is NOT established (design defect D5, no obligation yet).",
+  ref="DESIGN.md 5 C16"),
+ 'C07': dict(
+  text="Deductive proof: subbuild_key is the hashable form of [name, args, kwargs] (verified against spec hsh); lemma subbuild_key_identity (from the key lemma of C18): two such keys select the same dict slot iff same name and JSON-equal args and kwargs; Cache addresses subbuilds only through that slot (start/finish/has/get verified); _build_file_cache_lookup hits only the record stored under the same sanitized path with the same function name and JSON-equal arguments; arguments are sanitized (JSON round trip rt) before they are stored and the function receives fresh copies of the stored values; _sanitize_filename is abspath(fsdecode(x)).",
+  note="Assumes Python dict lookup = ==/hash on tuples of atoms (axiom DICT_KEYS), os.path.abspath/fsdecode; the C18 assumptions.",
+  ref="DESIGN.md 5 C07"),
+ 'C01': dict(
+  text="Deductive proof of the necessary conditions that carry cache transparency, function by function: a lookup hit is the old record of the same key, not raised, same function name, JSON-equal arguments, unchanged versions in the whole subtree, intact output; a True replay answer implies not setup-failed, path/key unclaimed, and leaves the file system untouched; the CreatedFiles overlay satisfies its representation invariant after every operation (directories = those with a live file below); reuse does not call the function, closes the record, re-reserves every recorded output (count NBF of non-raised build-file records in the subtree, also below raised ones) or releases everything on failure; commit removes only old outputs that are not virtually files and old/error directories.",
+  note="The end-to-end statement (incremental build equals from-scratch build for every program and history) is a simulation argument over arbitrary user callbacks: composition is informal and NOT machine-checked; Cache.use_cached_operation and BuildDirs are trusted contracts with bounded stand-ins.",
+  ref="DESIGN.md 5 C01"),
 }
 NA_REASON = {
  'C09': "quantifies over thread schedules between critical sections; pyvc has sequential semantics and contracts cannot express or explore interleavings (DESIGN.md section 7)",
